@@ -226,6 +226,7 @@ func (rc recreateCase) name() string {
 func c10RandomSeq(r *rand.Rand, lay c10Layout, policy string) []Op {
 	g := NewGen(r, nil, lay.base*1e9)
 	g.expiry, g.benign, g.ttls = true, true, lay.ttls
+	g.shadow = NewModel(PolicyCompact)
 	short := func(ttl string) bool { return ttl != ttlFarStr && ttl != ttlSoonLocal }
 	g.tsStep = func(g *Gen) int64 {
 		// half of the steps aim at a known expiry instant: one second before, at, one second after
@@ -345,7 +346,7 @@ func runC10(c *vc.Ctx) error {
 		return caseSpec{Name: rc.name(), Ops: rc.seq(b), Store: st, BaseWall: wall}
 	})
 	// (3) random sequences
-	nRand := c.Pick(900, 30000)
+	nRand := c.Pick(3000, 100000)
 	cp.run(nRand, func(i int) caseSpec {
 		r := c.Rand(10*1000003 + int64(i))
 		switch i % 3 {
